@@ -22,7 +22,7 @@ import common
 import vhdl_reader as R
 
 RULES = ["wt_design", "assoc_ok", "case_ok", "ports_ok", "sens_ok", "idents_ok", "decl_unique", "no_reserved",
-         "no_hiding", "no_user_reserved", "lib_unique"]
+         "no_hiding", "no_user_reserved", "lib_unique", "libs_visible"]
 
 PREDEF_TYPES = ["std_logic", "std_logic_vector", "unsigned", "signed", "boolean", "integer", "natural"]
 PREDEF_FUNCS = ["to_integer", "to_unsigned", "to_signed", "resize", "shift_left", "shift_right", "rising_edge",
@@ -36,12 +36,16 @@ PREAMBLE = (common.COQ_HEADER +
             "From Cohdl Require Import Vhdl.Typing Vhdl.Names Vhdl.TablesRef.\n"
             "Local Open Scope string_scope.\n"
             "Record ecase := { ec_d : design; ec_names : ent_names; ec_assoc : list assoc; ec_user : list string;\n"
-            "  ec_lib : list string }.\n"
+            "  ec_lib : list string; ec_libs_declared : list string; ec_libs_used : list string }.\n"
+            "(* every library prefix of an instantiated unit is `work` or made visible by a library clause of the unit *)\n"
+            "Definition libs_visible (declared used : list string) : bool :=\n"
+            "  forallb (fun u => String.eqb u \"work\" || existsb (String.eqb u) declared) used.\n"
             "Definition rules (c : ecase) : list bool :=\n"
             "  [ wt_design c.(ec_d); forallb (assoc_ok (mk_tenv c.(ec_d))) c.(ec_assoc); case_ok c.(ec_d);\n"
             "    ports_ok c.(ec_d); sens_ok c.(ec_d); idents_ok c.(ec_names); decl_unique c.(ec_names);\n"
             "    no_reserved vhdl93_reserved c.(ec_names); no_hiding predefined_used_by_emitter c.(ec_names);\n"
-            "    no_reserved (map lower c.(ec_user)) c.(ec_names); lib_unique c.(ec_lib) ].\n"
+            "    no_reserved (map lower c.(ec_user)) c.(ec_names); lib_unique c.(ec_lib);\n"
+            "    libs_visible c.(ec_libs_declared) c.(ec_libs_used) ].\n"
             "Fixpoint failing (l : list bool) (i : N) : list N :=\n"
             "  match l with [] => [] | b :: r => if b then failing r (i + 1)%N else i :: failing r (i + 1)%N end.\n"
             "Definition verdict (c : ecase) : list N * list N := (failing (rules c) 0%N, ill_typed_conc c.(ec_d)).\n")
@@ -294,6 +298,8 @@ def assoc_terms(ent, insts, by_name, printer: R.CoqPrinter, ren, sub):
     terms = []
     info = []
     for inst in insts:
+        if inst.lib != "work":
+            continue        # a unit of another library (extern entity): its ports are not in the emitted text
         child = by_name.get(inst.entity.lower())
         if child is None:
             raise R.Unparsed("instance of unknown entity %s" % inst.entity)
@@ -348,15 +354,16 @@ def build_cases(dname, vhdl, user_reserved=None):
         raise R.Unparsed("design units cannot be separated")
     for e, etext in zip(ents, texts):
         d, ren, sub, stmts, insts = entity_design(e)
+        libs_used = sorted({i.lib for i in insts})
         pr = R.CoqPrinter(d)
         dterm = pr.design()
         aterms, ainfo = assoc_terms(e, insts, by_name, pr, ren, sub)
         nterm, ninfo = names_term(e, etext)
         meta = {"names": ninfo, "stmts": stmts, "assoc": ainfo, "design": d}
         if len(dterm) <= BIG_TERM:
-            term = "{| ec_d := %s;\n ec_names := %s;\n ec_assoc := [%s]; ec_user := %s; ec_lib := %s |}" % (
+            term = "{| ec_d := %s;\n ec_names := %s;\n ec_assoc := [%s]; ec_user := %s; ec_lib := %s; ec_libs_declared := %s; ec_libs_used := %s |}" % (
                 dterm, nterm, "; ".join(aterms), coq_strs(user_reserved or []),
-                coq_strs([x.name for x in ents] if not cases else []))
+                coq_strs([x.name for x in ents] if not cases else []), coq_strs(e.libraries), coq_strs(libs_used))
             cases.append(ECase(dname, e, term, meta))
             continue
         # a very large entity: the rules about statements are conjunctions over d_conc, so the statement list is
@@ -375,9 +382,10 @@ def build_cases(dname, vhdl, user_reserved=None):
             if k == len(concs) or (size + len(concs[k]) > BIG_TERM and k > start):
                 dt = "{| d_sigs := %s_sigs; d_vars := %s_vars; d_conc := [%s%s" % (
                     uid, uid, ";\n    ".join(concs[start:k]), dterm[i3:])
-                term = "{| ec_d := %s;\n ec_names := %s;\n ec_assoc := [%s]; ec_user := %s; ec_lib := %s |}" % (
+                term = "{| ec_d := %s;\n ec_names := %s;\n ec_assoc := [%s]; ec_user := %s; ec_lib := %s; ec_libs_declared := %s; ec_libs_used := %s |}" % (
                     dt, nterm, "; ".join(aterms) if start == 0 else "", coq_strs(user_reserved or []),
-                    coq_strs([x.name for x in ents] if not cases else []))
+                    coq_strs([x.name for x in ents] if not cases else []), coq_strs(e.libraries),
+                    coq_strs(libs_used if start == 0 else []))
                 c = ECase(dname, e, term, dict(meta, stmts=stmts[start:k]))
                 c.prelude = prelude
                 cases.append(c)
@@ -934,6 +942,29 @@ def expr_design(idx, stmts):
 
 CORPUS = [
     # (name, entity, reserved, source)
+    # extern entities of other libraries (fixed by 5a3cb19: the library clause was never emitted); generic maps are
+    # outside the reader's subset, so the extern units have ports only
+    ("corp_extern_libs", "E0", None, HDR + """ExtA = type("ExtA", (cohdl.Entity,), {"a": Port.input(Bit), "q": Port.output(Bit)}, extern=True, attributes={"path": "liba"})
+ExtB = type("ExtB", (cohdl.Entity,), {"a": Port.input(Bit), "q": Port.output(Bit)}, extern=True, attributes={"path": "Libzeta"})
+
+class Inner(cohdl.Entity):
+    a = Port.input(Bit)
+    q = Port.output(Bit)
+    def architecture(self):
+        ExtB(a=self.a, q=self.q)
+
+class E0(cohdl.Entity):
+    a = Port.input(Bit)
+    q = Port.output(Bit)
+    r = Port.output(Bit)
+    s = Port.output(Bit)
+    t = Port.output(Bit)
+    def architecture(self):
+        ExtA(a=self.a, q=self.q)
+        ExtB(a=self.a, q=self.r)
+        ExtA(a=self.r, q=self.s)
+        Inner(a=self.a, q=self.t)
+"""),
     ("corp_known3", "E1", None, HDR + """class E1(cohdl.Entity):
     clk = Port.input(Bit)
     a = Port.input(Unsigned[4])
@@ -1250,6 +1281,10 @@ def classify(case, rule, bad_conc):
     if rule == "lib_unique":
         lib = re.findall(r"(?im)^\s*entity\s+(\w+)\s+is\s*$", case.result.get("vhdl", ""))
         return ({"rule": rule}, "two design units of one library have the same name (case-insensitively)", {"entities": lib})
+    if rule == "libs_visible":
+        used = sorted({i.lib for i in ent.conc if isinstance(i, R.Instance)})
+        return ({"rule": rule}, "an instantiated unit names a library that no library clause of the design unit makes visible",
+                {"libraries_used": used, "library_clauses": ent.libraries})
     if rule == "assoc_ok":
         return ({"rule": rule}, "a port association is ill-typed", {"associations": case.meta["assoc"]})
     return ({"rule": rule}, "rule %s fails" % rule, {})
